@@ -511,9 +511,20 @@ func (c17) Check(out *sim.Outcome, ri *RunInfo) []Violation {
 			continue
 		}
 		// report the closest expectation (fewest leading matching hops lost)
+		// report the most specific mismatch among the candidate endpoints: a leak beats an altered
+		// public hop beats a length difference
 		best := ""
+		rank := func(d string) int {
+			switch {
+			case strings.HasPrefix(d, "leak:"):
+				return 0
+			case strings.HasPrefix(d, "public-altered:"):
+				return 1
+			}
+			return 2
+		}
 		for j := range eps {
-			if d := compare(doc.Traceroute.Runs[r], eps[j]); best == "" || len(d) < len(best) {
+			if d := compare(doc.Traceroute.Runs[r], eps[j]); best == "" || rank(d) < rank(best) {
 				best = d
 			}
 		}
